@@ -191,9 +191,12 @@ class Findings:
                 return f
         return None
 
-    def match(self, prop, op, cls):
+    def match(self, prop, op, cls, impl=None):
         for f in self.data["findings"]:
             if f["property"] == prop and f["class"] == cls and (not f.get("ops") or op in f["ops"]):
+                # a finding may pin down HOW the oracle fails on the implementation: another kind of failure of the same operation is not the finding
+                if impl is not None and f.get("impl_prefix") and not any(impl.startswith(x) for x in f["impl_prefix"]):
+                    continue
                 return f
         return None
 
@@ -268,7 +271,7 @@ def compare(res, findings, lines, impl, model, search=None):
             if ia == "ok" and mb == "ok":
                 continue
             if ia == "FAIL" and mb == "FAIL":
-                f = findings.match(res.prop, op, cls)
+                f = findings.match(res.prop, op, cls, a)
                 if f:
                     c, _ = res.known.get(f["id"], (0, f["what"]))
                     res.known[f["id"]] = (c + 1, f["what"])
